@@ -263,6 +263,7 @@ def match_known(known, prop, case, rust, model, verdict):
     return None
 
 
+HEXTOK = re.compile(r"^x[0-9a-f]*$")
 INTERIOR = re.compile(r"\b(Cell|RefCell|UnsafeCell|OnceCell|OnceLock|Mutex|RwLock|Atomic[A-Za-z0-9]+|LazyCell|LazyLock)\b")
 
 
@@ -376,6 +377,7 @@ def main():
         if fn.startswith(f"{prop}_{tier}_") and not args.replay:
             os.remove(os.path.join(ROOT, "replays", fn))
     log = []
+    shapes = {}          # stream -> protocol word -> number of cases it occurs in
     violations = []      # dicts: kind, detail, case...
     unchecked = []       # theorems / streams that no longer check
 
@@ -465,6 +467,13 @@ def main():
                     mo = r
                 tag = (r.split(" ", 1)[0], verdict.split(" ", 1)[0] if verdict else "")
                 dist[f"{name}:{tag[0]}"] = dist.get(f"{name}:{tag[0]}", 0) + 1
+                # what the inputs are made of: protocol words (node kinds, presentations, back-ends,
+                # operations ...) by number of cases they occur in, and case sizes
+                th = shapes.setdefault(name, {})
+                for w_ in set(t_ for t_ in c.split() if t_[:1].isalpha() and len(t_) <= 18 and not (t_[0] == "x" and HEXTOK.match(t_))):
+                    th[w_] = th.get(w_, 0) + 1
+                sz = "size<64" if len(c) < 64 else "size<256" if len(c) < 256 else "size<1k" if len(c) < 1024 else "size<8k" if len(c) < 8192 else "size>=8k"
+                th[sz] = th.get(sz, 0) + 1
                 if not r.startswith(("bad-case", "skip")) and len(c) > 12:
                     distinct.add(hashlib.sha1(c.encode()).digest()[:8])
                 if len(samples) < 6 and evaluations % 97 == 1:
@@ -675,6 +684,7 @@ def main():
                                     "non-trivial = executed by both the Rust crate and the Lean model (not skipped / not a protocol error)"),
             "samples": samples,
             "distribution": dist,
+            "input_shapes": {k: dict(sorted(v.items(), key=lambda kv: -kv[1])[:60]) for k, v in shapes.items()},
             "streams": stream_stats,
             "known_findings_seen": {k: v["count"] for k, v in known_hits.items()},
             "extra_steps": extra_info,
